@@ -46,6 +46,9 @@ pub fn install_hook() {
             } else {
                 "<non-string panic payload>".to_string()
             };
+            if std::env::var_os("VERIF_PANIC_TRACE").is_some() {
+                eprintln!("panic at {file}:{line}: {msg}");
+            }
             LAST.with(|l| *l.borrow_mut() = Some(PanicInfo { file, line, msg }));
         }));
     });
